@@ -15,7 +15,8 @@ short, scalar, close = X.short, X.scalar, X.close
 class C02(Prop):
   id = 'C02'
   lean_module = 'DK.Props.C02'
-  theorems = ['DK.C02.' + t for t in THEOREMS]
+  theorems = {'DK.Props.C02': ['DK.C02.' + t for t in THEOREMS],
+              'DK.Props.TreeGrad': ['DK.TreeGrad.tree_isMGrad', 'DK.TreeGrad.tree_partial', 'DK.TreeGrad.ofLeaf_isGrad', 'DK.TreeGrad.ofMF_isGrad', 'DK.TreeGrad.shipped_tree_isMGrad']}
   rule = ('random rooted ordered trees of DeviceSet / SubBalancedDeviceSet nodes (depth <= 3 quick / 4 thorough, fan-out <= 3) over '
           'modelled leaves of every class, MFDeviceSet / TwoRatioMFDeviceSet adaptors as children, horizon 1..6 (..10 thorough); '
           'in-bounds flows given flat and matrix-shaped; prices scalar / per-slot vector / full matrix with pairwise different rows; '
